@@ -90,12 +90,45 @@ def key_canonicity(rep: Report, prog: Program) -> None:
             raise AnalysisError(f"{cls}.__new__: no use of cls._known found (anchor moved)")
         local = {n.targets[0].id: n.value for n in ast.walk(new.node) if isinstance(n, ast.Assign) and len(n.targets) == 1
                  and isinstance(n.targets[0], ast.Name)}
+        def key_deps(e: ast.AST, depth: int = 0) -> Set[str]:
+            """Constructor parameters the key expression depends on: locals and same-class helper calls followed."""
+            if isinstance(e, ast.Name):
+                if e.id in local and depth < 5:
+                    return key_deps(local[e.id], depth + 1)
+                return set() if e.id in ("cls", "self") else {e.id}
+            if isinstance(e, ast.Call) and isinstance(e.func, ast.Attribute) and isinstance(e.func.value, ast.Name) \
+                    and e.func.value.id in ("cls", "self", cls) and depth < 5:
+                hq = prog.method(cls, e.func.attr)
+                if hq and hq[0] in prog.functions:
+                    h = prog.functions[hq[0]]
+                    hp = [p_ for p_ in h.params() if p_ not in ("cls", "self")]
+                    hlocal = {n.targets[0].id: n.value for n in ast.walk(h.node) if isinstance(n, ast.Assign) and len(n.targets) == 1
+                              and isinstance(n.targets[0], ast.Name)}
+                    used: Set[str] = set()
+                    for r in ast.walk(h.node):
+                        if isinstance(r, ast.Return) and r.value is not None:
+                            d = names_in(r.value)
+                            for _ in range(4):
+                                for v in list(d):
+                                    if v in hlocal:
+                                        d = (d - {v}) | names_in(hlocal[v])
+                            used |= d
+                    out: Set[str] = set()
+                    for i, a in enumerate(e.args):
+                        if i < len(hp) and hp[i] in used:
+                            out |= key_deps(a, depth + 1)
+                    for kw in e.keywords:
+                        if kw.arg in used:
+                            out |= key_deps(kw.value, depth + 1)
+                    return out
+            out2: Set[str] = set()
+            for ch in ast.iter_child_nodes(e):
+                if isinstance(ch, (ast.expr_context, ast.operator, ast.cmpop, ast.unaryop, ast.boolop)):
+                    continue
+                out2 |= key_deps(ch, depth)
+            return out2
         for ke in key_exprs:
-            deps = names_in(ke)
-            for _ in range(3):
-                for v in list(deps):
-                    if v in local:
-                        deps = (deps - {v}) | names_in(local[v])
+            deps = key_deps(ke)
             rep.check("R02.1", f"{cls}.__new__:key", deps == want,
                       f"intern key of {cls} is built from {sorted(deps)}, expected exactly {sorted(want)}", new.where(ke))
     # Prefix identity canonicalisation precedes the key
@@ -114,8 +147,11 @@ def intern_protocol(rep: Report, prog: Program) -> None:
         fi = prog.func(f"{cls}.__new__")
         cfg = CFG(fi.node)
         dom = cfg.dominators()
+        from ..effects import is_table as _is_table, table_aliases
+        al = table_aliases(fi.node)
+        by_name_al = table_aliases(fi.node, "_by_name")
         stores = [n for n in cfg.stmt_nodes() if isinstance(n.ast, ast.Assign)
-                  and any(isinstance(t, ast.Subscript) and ast.unparse(t.value) == "cls._known" for t in n.ast.targets)]
+                  and any(isinstance(t, ast.Subscript) and _is_table(t.value, al) for t in n.ast.targets)]
         for n in cfg.stmt_nodes():
             if not isinstance(n.ast, ast.Return):
                 continue
@@ -123,10 +159,10 @@ def intern_protocol(rep: Report, prog: Program) -> None:
             txt = ast.unparse(v) if v is not None else "None"
             ok = False
             why = ""
-            if txt.startswith("cls._known[") or txt.startswith("cls._by_name[") or txt == "IdentityPrefix":
+            if txt == "IdentityPrefix" or (isinstance(v, ast.Subscript) and (_is_table(v.value, al) or _is_table(v.value, by_name_al, "_by_name"))):
                 ok = True
             elif isinstance(v, ast.Call) and isinstance(v.func, ast.Attribute) and v.func.attr == "setdefault" \
-                    and ast.unparse(v.func.value) == "cls._known" and len(v.args) == 2:
+                    and _is_table(v.func.value, al) and len(v.args) == 2:
                 ok = True   # stores the fresh object under its key unless one is there, and returns whichever is interned
             elif isinstance(v, ast.Name):
                 # fresh object: a store cls._known[...] = <name> must dominate the return
